@@ -41,7 +41,9 @@ ASSUMPTIONS = ["only the filled part of the data arrays is compared (unwritten "
 BUFS = ["ReplayBuffer", "LAP", "PrioritizedReplayBuffer", "Sub", "SubPER",
         "Multi:ReplayBuffer", "Multi:LAP", "Multi:SubPER",
         # many tasks, first visited in non-ascending order
-        "Multi12:ReplayBuffer", "Multi12:LAP"]
+        "Multi12:ReplayBuffer", "Multi12:LAP",
+        # user-defined extra key holding 64-bit integers beyond 2**53
+        "ReplayBuffer+stamp", "LAP+stamp"]
 MODS = ["mlp", "gaussian", "layernorm", "doubleq", "sale", "encoder_policy",
         "ensemble", "tanh_policy", "gaussian_tanh", "mt_q", "mt_encoder_policy",
         "deep_mlp"]
@@ -76,6 +78,11 @@ def make_buffer(cls, N, H):
         head, base = cls.split(":", 1)
         return rb.MultiTaskReplayBuffer(make_buffer(base, N, H),
                                         int(head[5:] or 2))
+    if cls.endswith("+stamp"):
+        return getattr(rb, cls[:-6])(
+            N, keys=["observation", "action", "reward", "next_observation",
+                     "termination", "stamp"],
+            dtypes=[float, float, float, float, int, np.int64])
     if cls == "Sub":
         return rb.SubtrajectoryReplayBuffer(max(N, H + 1), horizon=H)
     if cls == "SubPER":
@@ -137,6 +144,8 @@ def apply_op(buf, op, cls, H, ctx):
             sample = dict(observation=np.array([g, 0.5]), action=g + 0.25,
                           reward=float(g), next_observation=np.array([g, 1.5]),
                           termination=term)
+        if cls.endswith("+stamp"):
+            sample["stamp"] = np.int64(1_760_000_000_000_000_001 + 12_345 * g)
         if g % 2 == 1:  # keyword arguments have no order (the first add included)
             sample = dict(reversed(list(sample.items())))
         buf.add_sample(**sample)
